@@ -329,4 +329,42 @@ theorem NoRow.run (acts : List BAct) (s : Sys) (hn : NoRow s) (hc : ∀ a ∈ ac
       · exact hn.step _ _ _ e (hc a (by simp))
     exact ih _ hn' (fun b hb => hc b (by simp [hb]))
 
+/-! ### a release that has begun is carried through: nothing but a crash ends a releaser between its CAS and its
+`complete_release` (the model has no action that cancels a releaser: that `_deferred_release` de-registers its task before
+it starts the release — so that no tick and no `_do_resume` can cancel it — is re-extracted as `shape_dbos_deferred`) -/
+
+def NoCrash (s : Sys) : Prop := ∀ i, s.crashed i = false
+
+theorem NoCrash.init : NoCrash {} := by intro i; rfl
+
+theorem NoCrash.step (s s' : Sys) (a : BAct) (h : bstep s a = some s') (hn : NoCrash s) (hc : ∀ i, a ≠ .rCrash i) :
+    NoCrash s' := by
+  cases a with
+  | rCrash i => exact absurd rfl (hc i)
+  | uTry k =>
+    simp only [bstep] at h
+    repeat' (split at h)
+    all_goals (first | (cases h; done) | (simp only [Option.some.injEq] at h; subst h; exact hn))
+  | tick dt => bdestruct h; exact hn
+  | create => bdestruct h; exact hn
+  | rSpawn i => bdestruct h; exact hn
+  | rBegin i => bdestruct h <;> exact hn
+  | rSend i => bdestruct h; exact hn
+  | rComplete i => bdestruct h <;> exact hn
+  | uSpawn k => bdestruct h; exact hn
+  | uSend k => bdestruct h <;> exact hn
+  | uFinish k => bdestruct h; exact hn
+  | wfStep => bdestruct h <;> exact hn
+
+theorem NoCrash.run (acts : List BAct) (s : Sys) (hn : NoCrash s) (hc : ∀ a ∈ acts, ∀ i, a ≠ .rCrash i) :
+    NoCrash (brun s acts) := by
+  induction acts generalizing s with
+  | nil => exact hn
+  | cons a as ih =>
+    have hn' : NoCrash (bstepD s a) := by
+      rcases bstepD_eq s a with e | e
+      · rw [e]; exact hn
+      · exact hn.step _ _ _ e (hc a (by simp))
+    exact ih _ hn' (fun b hb => hc b (by simp [hb]))
+
 end Lifecycle
